@@ -52,6 +52,7 @@ KINDS = {
     "skip":    (". = . + {KSYM}", "K", False, ["K"]),
     "repeat":  (".repeat {NSYM} { .byte 5, 6 }", "repN", False, ["N"]),
     "repdot":  (".repeat 2 { .word . }", 4, True, []),
+    "repdotdiv": (".repeat 2 { .word ./2, .>>1 }", 8, True, []),
     "insndot": ("mov #., @#.", 6, True, []),
     "idxdot":  ("bis #1, .-2(r3)", 6, True, []),
     "repvar":  (".repeat {NSYM} { .align 4\n .word .\n .byte 1, 2, 3 }", "repvar", True, ["N"]),
@@ -103,6 +104,9 @@ def content_of(kind, addr, vals):
         return [(2, 1), (4, addr - 2)]
     if kind == "repdot":
         return [(0, addr), (2, addr + 2)]
+    if kind == "repdotdiv":
+        # '.' is the address of the statement for every word of its list; each copy sees its own
+        return [(0, addr // 2), (2, addr // 2), (4, (addr + 4) // 2), (6, (addr + 4) // 2)]
     if kind == "repvar":
         out, a = [], addr
         for _ in range(vals["N"]):
